@@ -10,5 +10,7 @@ open XotModel.Props
 #print axioms C12_independent
 #print axioms C12_prefixes_frame
 #print axioms C12_prefixes_non_element
+#print axioms C12_prefixes_total
+#print axioms C12_prefixes
 #print axioms C12_store
 #print axioms C12_store_fields
